@@ -30,7 +30,7 @@ import numpy as np
 
 from ptverif import export, progspace, runprog, tlc
 from ptverif import replay as rp
-from ptverif.common import NCPU, MachineryError, Run, seed
+from ptverif.common import NCPU, MachineryError, Run, robust_map, seed
 
 PROP = "C14"
 UNSUPPORTED_OPS = {"csr"}
@@ -263,11 +263,10 @@ def programs(tier: str) -> list[dict]:
 def main(tier: str, only: list[dict] | None = None) -> int:
     run = Run(PROP, tier, "exploration")
     progs = only if only is not None else programs(tier)
-    n = NCPU * 4
-    with mp.Pool(NCPU) as pool:
-        results = [r for chunk in pool.map(_run_many,
-                                           [progs[i::n] for i in range(n) if progs[i::n]])
-                   for r in chunk]
+    results = robust_map(_run_many, progs, crashed=lambda p, why: {
+        "id": p["id"], "status": "ok", "compared": 0, "records": [],
+        "ops": sorted({c["op"] for c in p["calls"]}),
+        "problems": [{"clause": "execution_crashed", "exc": "", "what": why}]})
     by_id = {p["id"]: p for p in progs}
     status: dict[str, int] = {}
     unsupported_ops: dict[str, int] = {}
